@@ -116,6 +116,8 @@ def check_float_case(fb, rec, rnd, rep, stats, N):
             rep.violation('raises:' + key, dict(case=key), 'fd_derivative raised %r' % (ex,))
             continue
         stats['float_calls'] += 1
+        if len(HELD) < 300:
+            HELD.append((key, du, np.array(du, copy=True)))     # results are values: kept ones never change
         mm = n // 2 + m
         for i in range(N):
             lo, hi = (0, 2 * mm + 2) if i < mm else ((N - 2 * mm - 2, N) if i >= N - mm else (i - mm, i + mm + 1))
@@ -127,9 +129,13 @@ def check_float_case(fb, rec, rnd, rep, stats, N):
                 break
 
 
+HELD = []
+
+
 def run(tier, rep):
     seed = vlib.seed_from_env()
     from numdifftools import fornberg as fb
+    del HELD[:]
     res = vlib.tlc('MC_FdDeriv', cfg='MC_FdDeriv.cfg', timeout=1800)
     if res.violated:
         raise vlib.MachineryError('MC_FdDeriv violates %s\n%s' % (res.violated, res.out[-1500:]))
@@ -159,6 +165,10 @@ def run(tier, rep):
                     rec = dict(n=n, m=m, coefs=[[c.numerator, c.denominator] for c in cs], dcoefs=[[c.numerator, c.denominator] for c in ds])
                     for N in {2 * mm + 2, rnd.randint(2 * mm + 3, 40)}:
                         check_float_case(fb, rec, rnd, rep, stats, N)
+    for key, du, snap in HELD:
+        if not np.array_equal(du, snap, equal_nan=True):
+            rep.violation('result-overwritten', dict(case=key), '%s: the array returned by fd_derivative was changed by later calls' % key)
+            break
     states, trans, per = vlib.merge_tlc([res])
     cov = dict(states=states, transitions=trans, traces_validated_against_impl=stats['calls'] + stats['float_calls'], exhaustive=True,
                samples=[{k: v for k, v in res.records[11].items()}], evaluations=stats['calls'] + stats['float_calls'],
